@@ -286,6 +286,7 @@ PROPS.update({
     },
     "C18": {
         "coq": "Properties/C18.v",
+        "coq_extra": ["Properties/C18obs.v"],
         "pinchecks": ENGINE_PINS,
         "gen": "c18",
         "level_text": "Coq theorems: after a successful set_model / set_adapter the state is st_equiv (identical answers to EVERY query, c18_ask_equiv) - indeed model "
@@ -293,9 +294,11 @@ PROPS.update({
                       "c18_set_adapter and the _now/_leftovers forms); set_role_manager / set_effector / add_function under the decidable Synced hypothesis; the "
                       "invariant Settled is kept by every sequence of reconfiguration calls (c18_sequences). Each hypothesis (auto-build on, adapter not marked "
                       "filtered, no leftover role functions, Synced, ...) has a refutation witness; c18_set_model_needs_registration documents repaired D14. "
-                      "PARTIAL: sequences interleaved with incremental management calls are covered by the single-call theorems only when syncedb holds",
-        "partial": "c18_sequences covers reconfiguration calls and reloads; after incremental removals the exact-equality hypothesis Synced can fail (isolated nodes stay in "
-                   "the graph) although the enforcers are observationally equal: that case rests on the correspondence run",
+                      "Properties/C18obs.v closes the former gap: under the observational ObsSynced (store reloads exactly, role graph agrees with the stored "
+                      "grouping rules as SETS, shallow) - proved to hold after EVERY history of incremental management calls over a memory adapter "
+                      "(c18obs_reachable) - set_role_manager / set_effector / add_function answer every query like the freshly built enforcer "
+                      "(c18obs_set_role_manager / _set_effector / _add_function, c18obs_after_history); shallow and reparse_ok have necessity witnesses",
+        "partial": "",
         "level_note": ENGINE_NOTE,
         "explanation": "theorems c18_*; reconfigured enforcer vs freshly built twin on every query",
         "assumptions": ["the new model calls only role definitions it defines (registered role functions are never unregistered)",
